@@ -1224,7 +1224,9 @@ out:
 int is_invalid_fragment_header(fragment_header_t *header)
 {
     uint32_t csum = 0, metadata_chksum = 0, libec_version = 0;
-    assert (NULL != header);
+    if (NULL == header)
+        /* e.g. a NULL entry in a caller's fragment list */
+        return 1;
     if (header->libec_version == 0)
         /* libec_version must be bigger than 0 */
         return 1;
@@ -1281,6 +1283,10 @@ int is_invalid_fragment_metadata(int desc, fragment_metadata_t *fragment_metadat
     if (!be) {
         log_error("Unable to verify fragment metadata: invalid backend id %d.",
                 desc);
+        return -EINVALIDPARAMS;
+    }
+    if (!fragment_metadata) {
+        log_error("Unable to verify fragment metadata: fragment missing.");
         return -EINVALIDPARAMS;
     }
     if (liberasurecode_verify_fragment_metadata(be,
